@@ -163,6 +163,11 @@ def ckptWritten (interval b : Nat) : Bool := b % interval == 0
 def restore (cfg : Cfg K σ) (ck : Ckpt K σ) : St K σ :=
   { fresh cfg ck.θ ck.opt with gstep := ck.gstep }
 
+/-- restoring a checkpoint into objects that already exist (`trainer.fit(solver, ckpt_path=…)` with the Solver,
+    condition and callback objects of the interrupted fit): only what the checkpoint holds is overwritten,
+    the positions of samplers / data iterators inside the condition objects stay what they are -/
+def restoreInto (s : St K σ) (ck : Ckpt K σ) : St K σ := { s with θ := ck.θ, opt := ck.opt, gstep := ck.gstep }
+
 def resume [Add K] [Mul K] [OfNat K 0] (cfg : Cfg K σ) (sched : Nat → Bool) (N : Nat) (ck : Ckpt K σ) :
     St K σ :=
   solverRun cfg sched false N (restore cfg ck)
